@@ -567,6 +567,21 @@ class Facts:
                 if isinstance(t, (ast.Attribute, ast.Subscript)):
                     out.append((self.flow.atoms(t, fn, bind),
                                 self.flow.atoms(v, fn, bind), n))
+            if isinstance(n, ast.Call) and isinstance(n.func, ast.Name) \
+                    and n.func.id == 'setattr' and len(n.args) == 3:
+                names = self.flow.const_keys(n.args[1], fn, bind)
+                if names:
+                    base = self.flow.atoms(n.args[0], fn, bind)
+                    tg = set()
+                    for b_ in base:
+                        if b_.startswith(('const:', 'key:', 'via:',
+                                          'alloc:')):
+                            continue
+                        b_ = b_[6:] if b_.startswith('param:') else b_
+                        for nm in names:
+                            tg.add('{}.{}'.format(b_, nm))
+                    out.append((tg, self.flow.atoms(n.args[2], fn, bind),
+                                n))
         return out
 
     def before(self, fn, pred, node, depth=2):
